@@ -244,6 +244,9 @@ func c16Run(src *choice.Src) *core.Result {
 		return res
 	}
 	preModel, _ := pre.lists()
+	// which duplicate is "first" depends on the list order: the in-memory session keeps its own order,
+	// a re-opened file has the order of the text
+	memModel := model.clone()
 	adoptOrder(model, preModel)
 	var op mOp
 	if work {
@@ -279,11 +282,31 @@ func c16Run(src *choice.Src) *core.Result {
 			return res
 		}
 	}
-	out := outs[0]
+	// the same bulk set on the session that produced the pre-state (no re-parse in between): a setter
+	// must not depend on leftovers of earlier edits in the in-memory tree
+	if err := r0.apply(op); err != nil {
+		res.Fail("C16", "bulk-setter-runs", "a bulk setter failed or panicked on the edited in-memory file", "%s: %v\nfile before:\n%s\nhistory: %s", op, err, clipText(bytes0), hist)
+		return res
+	}
+	r0.cleanup()
+	variants := [][]byte{outs[0], r0.format()}
+	for vi, out := range variants {
+		if c16Judge(res, work, op, []*mModel{model, memModel}[vi], pre, bytes0, out, []string{"from the re-parsed file", "on the in-memory session"}[vi]) {
+			return res
+		}
+	}
+	res.Faults["map-order-repetition"] += reps
+	res.Sig = choice.Mix(choice.MixString(string(bytes0)), choice.MixString(op.String()))
+	res.Sample = map[string]interface{}{"file": map[bool]string{true: "go.work", false: "go.mod"}[work], "before": clipText(bytes0), "operation": op.String(), "after": clipText(outs[0]), "repetitions": reps}
+	return res
+}
+
+// c16Judge applies the postconditions of a bulk set to one output; it reports whether a violation was recorded.
+func c16Judge(res *core.Result, work bool, op mOp, model *mModel, pre *realFile, bytes0, out []byte, how string) bool {
 	p, err := parseReal(work, out)
 	if err != nil {
-		res.Fail("C16", "output-parses-strictly", "the file does not parse after a bulk set", "%s: %v\nfile before:\n%s\nfile after:\n%s", op, firstLine(err.Error()), clipText(bytes0), clipText(out))
-		return res
+		res.Fail("C16", "output-parses-strictly", "the file does not parse after a bulk set", "%s (%s): %v\nfile before:\n%s\nfile after:\n%s", op, how, firstLine(err.Error()), clipText(bytes0), clipText(out))
+		return true
 	}
 	got, _ := p.lists()
 	kind := "require"
@@ -301,12 +324,12 @@ func c16Run(src *choice.Src) *core.Result {
 	}
 	if d := diffLists(want, have); d != "" {
 		res.Fail("C16", "exactly-the-requested-set", "after the bulk set the file does not contain exactly one directive per requested path", "%s: (- requested only, + file only) %s\nfile before:\n%s\nfile after:\n%s", op, d, clipText(bytes0), clipText(out))
-		return res
+		return true
 	}
 	goV := got.goV
 	if bad := checkBlockOrder(p.syntax(), goV); bad != "" {
 		res.Fail("C16", "blocks-in-documented-order", "a block is not in its documented order after the bulk set", "%s (go %q): %s\nfile before:\n%s\nfile after:\n%s", op, goV, bad, clipText(bytes0), clipText(out))
-		return res
+		return true
 	}
 	// comments of kept lines survive (the first existing line of each kept path)
 	requested := map[string]bool{}
@@ -324,12 +347,12 @@ func c16Run(src *choice.Src) *core.Result {
 		}
 		l := findLineByID(p.syntax(), e.id)
 		if l == nil {
-			res.Fail("C16", "kept-line-keeps-comments", "a kept line lost its end-of-line comment", "%s: the first line for %s (#%d) no longer carries its end-of-line comment\nfile before:\n%s\nfile after:\n%s", op, e.a, e.id, clipText(bytes0), clipText(out))
-			return res
+			res.Fail("C16", "kept-line-keeps-comments", "a kept line lost its end-of-line comment", "%s (%s): the first line for %s (#%d) no longer carries its end-of-line comment\nfile before:\n%s\nfile after:\n%s", op, how, e.a, e.id, clipText(bytes0), clipText(out))
+			return true
 		}
 		if !hasLeadComments(l, nil, e.id, e.lead) {
 			res.Fail("C16", "kept-line-keeps-comments", "a kept line lost a leading comment", "%s: the first line for %s (#%d) lost one of its %d leading comments\nfile before:\n%s\nfile after:\n%s", op, e.a, e.id, e.lead, clipText(bytes0), clipText(out))
-			return res
+			return true
 		}
 		res.Probes["kept-line-with-comments-checked"]++
 	}
@@ -351,15 +374,12 @@ func c16Run(src *choice.Src) *core.Result {
 			}
 			if direct > 0 && indirect > 0 {
 				res.Fail("C16", "direct-and-indirect-separated", "direct and indirect requirements share a block although the file had one uncommented require statement", "%s\nfile before:\n%s\nfile after:\n%s", op, clipText(bytes0), clipText(out))
-				return res
+				return true
 			}
 		}
 		// single lines next to a block of the other kind are fine; a lone mixed pair of lines cannot exist
 	}
-	res.Faults["map-order-repetition"] += reps
-	res.Sig = choice.Mix(choice.MixString(string(bytes0)), choice.MixString(op.String()))
-	res.Sample = map[string]interface{}{"file": map[bool]string{true: "go.work", false: "go.mod"}[work], "before": clipText(bytes0), "operation": op.String(), "after": clipText(out), "repetitions": reps}
-	return res
+	return false
 }
 
 func lineIsIndirect(l *modfile.Line) bool {
